@@ -2,6 +2,6 @@
 # Builds the framework from files on disk only (offline).
 set -e
 export GOFLAGS=-mod=mod GOPROXY=off GOSUMDB=off GOTOOLCHAIN=local
-cd /verif/engine
+cd "$(dirname "$0")/engine"
 mkdir -p ../bin
 go build -o ../bin/gosym ./cmd/gosym
